@@ -95,6 +95,10 @@ func drawHostilePaths(t *rapid.T, R int64, label string) Paths {
 		return nil
 	case 1:
 		return Paths{}
+	case 2, 3:
+		// the polygon families of the boolean checks (lattice, dense, rectilinear, octagonal,
+		// generic): many touching vertices, coincident edges and overlaps
+		return drawClosedPaths(t, drawFamily(t), 1, 3, label+"Fam")
 	}
 	n := rapid.IntRange(1, 3).Draw(t, label+"N")
 	ps := make(Paths, n)
